@@ -55,13 +55,16 @@ def gen(rnd):
         if e == 'filter':
             layer = {'t': 'filter', 'pred': [rnd.choice(['t011', 't012']), [rnd.choice(fields)]]}
         elif e == 'keep':
-            layer = {'t': 'keep', 'ids': sorted(rnd.sample(ids, rnd.randint(1, len(ids))))}
+            # a few dozen ids: whatever container the layer keeps them in must survive pickling with the same digest
+            layer = {'t': 'keep', 'ids': rnd.sample(ids, rnd.randint(1, len(ids))) + [f'other-{rnd.randrange(10 ** 6)}' for _ in range(rnd.choice([0, 30, 40]))]}
         elif e == 'drop':
-            layer = {'t': 'drop', 'ids': sorted(rnd.sample(ids, rnd.randint(0, len(ids) - 1)))}
+            layer = {'t': 'drop', 'ids': rnd.sample(ids, rnd.randint(0, len(ids) - 1)) + [f'other-{rnd.randrange(10 ** 6)}' for _ in range(rnd.choice([0, 30, 40]))]}
         elif e == 'checkids':
             layer = {'t': 'checkids'}
         elif e == 'groupby':
             layer = {'t': 'groupby', 'by': 'grp'}
+            if rnd.random() < 0.4:
+                layer['by_callable'] = True
             pos = len(spec)          # ids change: keep it last, columns caches below stay valid
         elif e == 'apply':
             layer = {'t': 'apply', 'fields': {rnd.choice(fields): sy.fresh()}}
